@@ -309,29 +309,56 @@ def r8_9(ctx):
             for arm in (x.value.body, x.value.orelse):
                 okg = isinstance(arm, ast.Constant) and isinstance(arm.value, str) and len(arm.value) == 1 and cw(arm.value) == 1
                 ctx.check(okg, f.fq, norm(x), f"{f.module.relpath}:{x.lineno}", f"glyph {norm(arm)} is one cell", f"bar glyph {norm(arm)} is not exactly one cell wide")
-    # pulse
+    # pulse: decided on the path normal form - what _render_pulse yields is  (P * n)[o : o + width]  with  o = <phase> % len(P)
+    # and  n = floor(width / len(P)) + c,  c >= 2   (temporaries, a split slice bound or a conditional statement change nothing)
+    from ..yieldpaths import Enumerator, Unsupported, resolve
     p = ctx.repo.fn("progress_bar:ProgressBar._render_pulse")
-    rep = off = sl = None
-    for x in walk_local(p.node):
-        if isinstance(x, ast.Assign) and isinstance(x.value, ast.BinOp) and isinstance(x.value.op, ast.Mult) and norm(x.value.left) == "pulse_segments":
-            rep = x
-        if isinstance(x, ast.Assign) and isinstance(x.value, ast.BinOp) and isinstance(x.value.op, ast.Mod) and norm(x.value.right) == "segment_count":
-            off = x
-        if isinstance(x, ast.Assign) and isinstance(x.value, ast.Subscript) and isinstance(x.value.slice, ast.Slice):
-            sl = x
-    if rep is None or off is None or sl is None:
-        raise AnchorVanished("ProgressBar._render_pulse: repeat / offset / slice statements not found")
-    cnt = rep.value.right
-    form = lin(cnt)
-    base = [k for k in form if k]
-    c = form.get("", 0)
-    okb = len(base) == 1 and form[base[0]] == 1 and base[0] in ("int(width / segment_count)", "width // segment_count")
-    ctx.check(okb and c >= 2, p.fq, norm(rep), f"{p.module.relpath}:{rep.lineno}", f"pattern repeated floor(width/len) + {c} times (>= +2)",
-              f"the pulse pattern is repeated `{norm(cnt)}` times: with an offset of up to len-1 the slice [offset : offset+width] needs at least floor(width/len) + 2 repetitions, otherwise the pulse bar is shorter than its width for some animation phases")
-    o = norm(off.targets[0])
-    oks = norm(sl.value.slice.lower) == o and norm(sl.value.slice.upper) in (f"{o} + width", f"width + {o}") and norm(sl.value.value) == norm(rep.targets[0])
-    ctx.check(oks, p.fq, norm(sl), f"{p.module.relpath}:{sl.lineno}", "exactly `width` cells are cut out starting at the phase offset", "the pulse slice is not [offset : offset + width] of the repeated pattern")
-    ctx.check("segment_count = len(pulse_segments)" in norm(p.node), p.fq, "segment_count = len(pulse_segments)", p.where, "offset is taken modulo the pattern length", "segment_count is not the pattern length")
+    try:
+        paths = [resolve(pp) for pp in Enumerator(p.node).run()]
+    except Unsupported as u:
+        raise AnalysisError(f"ProgressBar._render_pulse: {u}")
+    n_pulse = 0
+    for path in paths:
+        conds = {}
+        feasible = True
+        for ev in path:
+            if ev[0] == "cond":
+                if conds.get(ev[1], ev[2]) != ev[2]:
+                    feasible = False
+                conds[ev[1]] = ev[2]
+        if not feasible:
+            continue
+        ys = [ev for ev in path if ev[0] in ("yield", "yieldfrom")]
+        if len(ys) != 1 or ys[0][0] != "yieldfrom":
+            raise AnalysisError("ProgressBar._render_pulse: the pulse is not emitted by one `yield from <slice of the repeated pattern>`; another construction (e.g. index arithmetic per cell) is not decided here")
+        e = ast.parse(ys[0][1], mode="eval").body
+        if not (isinstance(e, ast.Subscript) and isinstance(e.slice, ast.Slice) and e.slice.step is None and isinstance(e.value, ast.BinOp) and isinstance(e.value.op, ast.Mult)):
+            raise AnalysisError(f"ProgressBar._render_pulse: the yielded value `{short(e)}` is not a slice of a repeated list")
+        n_pulse += 1
+        where = f"{p.module.relpath}:{p.node.lineno}"
+        P, cnt = e.value.left, e.value.right
+        if isinstance(P, ast.BinOp) or (isinstance(P, ast.Call) and norm(P.func) == "int"):
+            P, cnt = cnt, P
+        lenP = f"len({norm(P)})"
+        form = lin(cnt)
+        base = [k for k in form if k]
+        c = form.get("", 0)
+        okb = len(base) == 1 and form[base[0]] == 1 and base[0] in (f"int(width / {lenP})", f"width // {lenP}")
+        if not okb:
+            raise AnalysisError(f"ProgressBar._render_pulse: the repeat count `{norm(cnt)}` is not floor(width / len(pattern)) + c")
+        ctx.check(c >= 2, p.fq, f"{norm(P)[:40]} * ({norm(cnt)[:80]})", where, f"pattern repeated floor(width/len) + {c} times (>= +2)",
+                  f"the pulse pattern is repeated floor(width / len) + {c} times: with an offset of up to len-1 the slice [offset : offset+width] needs at least floor(width/len) + 2 repetitions, otherwise the pulse bar is shorter than its width for some animation phases")
+        lo, hi = e.slice.lower, e.slice.upper
+        if lo is None or hi is None:
+            ctx.violation(p.fq, short(e), where, "the pulse slice is not [offset : offset + width] of the repeated pattern")
+            continue
+        okm = isinstance(lo, ast.BinOp) and isinstance(lo.op, ast.Mod) and norm(lo.right) == lenP
+        ctx.check(okm, p.fq, f"offset = {norm(lo)[:80]}", where, "offset is taken modulo the pattern length", f"the slice starts at `{norm(lo)[:80]}`, which is not reduced modulo the pattern length: the slice can start beyond the repeated pattern")
+        d = dict(lin(hi))
+        # hi - lo: the offset term is opaque; compare texts of the forms
+        okw = norm(hi) in (f"{norm(lo)} + width", f"width + {norm(lo)}")
+        ctx.check(okw, p.fq, f"[{norm(lo)[:40]} : {norm(hi)[:60]}]", where, "exactly `width` cells are cut out starting at the phase offset", "the pulse slice is not [offset : offset + width] of the repeated pattern")
+    ctx.floor(n_pulse, 1, "feasible paths through _render_pulse")
 
 
 def r8_10(ctx):
